@@ -527,10 +527,20 @@ async fn client_handler<State>(
                             );
 
                         handler.cors.set_headers(&mut response.headers);
+                        response.version = request.version.clone();
 
                         response
                     }
-                    None => error_handler(StatusCode::NotFound),
+                    None => {
+                        let mut response = error_handler(StatusCode::NotFound);
+                        add_default_headers(
+                            &mut response,
+                            request.headers.get(&HeaderType::Connection),
+                        );
+                        response.version = request.version.clone();
+
+                        response
+                    }
                 }
             }
             Ok(request) => {
@@ -549,41 +559,7 @@ async fn client_handler<State>(
                 };
 
                 // Automatically generate required headers
-                match response.headers.get_mut(HeaderType::Connection) {
-                    Some(_) => (),
-                    None => {
-                        if let Some(connection) = &request.headers.get(&HeaderType::Connection) {
-                            response.headers.add(HeaderType::Connection, connection);
-                        } else {
-                            response.headers.add(HeaderType::Connection, "Close");
-                        }
-                    }
-                }
-
-                match response.headers.get_mut(HeaderType::Server) {
-                    Some(_) => (),
-                    None => {
-                        response.headers.add(HeaderType::Server, "Humphrey");
-                    }
-                }
-
-                match response.headers.get_mut(HeaderType::Date) {
-                    Some(_) => (),
-                    None => {
-                        response
-                            .headers
-                            .add(HeaderType::Date, DateTime::now().to_string());
-                    }
-                }
-
-                match response.headers.get_mut(HeaderType::ContentLength) {
-                    Some(_) => (),
-                    None => {
-                        response
-                            .headers
-                            .add(HeaderType::ContentLength, response.body.len().to_string());
-                    }
-                }
+                add_default_headers(&mut response, request.headers.get(&HeaderType::Connection));
 
                 // Set HTTP version
                 response.version = request.version.clone();
@@ -591,8 +567,16 @@ async fn client_handler<State>(
                 response
             }
             Err(e) => match e {
-                RequestError::Request => error_handler(StatusCode::BadRequest),
-                RequestError::Timeout => error_handler(StatusCode::RequestTimeout),
+                RequestError::Request => {
+                    let mut response = error_handler(StatusCode::BadRequest);
+                    add_default_headers(&mut response, None);
+                    response
+                }
+                RequestError::Timeout => {
+                    let mut response = error_handler(StatusCode::RequestTimeout);
+                    add_default_headers(&mut response, None);
+                    response
+                }
                 RequestError::Disconnected => return,
                 RequestError::Stream => {
                     return monitor.send(Event::new(EventType::RequestServedError))
@@ -653,6 +637,32 @@ async fn client_handler<State>(
     }
 
     monitor.send(Event::new(EventType::ConnectionClosed).with_peer(addr));
+}
+
+/// Adds the `Connection`, `Server`, `Date` and `Content-Length` headers which every response needs, unless the
+///   handler has already set them. `connection` is the value of the request's `Connection` header, if any.
+fn add_default_headers(response: &mut Response, connection: Option<&str>) {
+    if response.headers.get(HeaderType::Connection).is_none() {
+        response
+            .headers
+            .add(HeaderType::Connection, connection.unwrap_or("Close"));
+    }
+
+    if response.headers.get(HeaderType::Server).is_none() {
+        response.headers.add(HeaderType::Server, "Humphrey");
+    }
+
+    if response.headers.get(HeaderType::Date).is_none() {
+        response
+            .headers
+            .add(HeaderType::Date, DateTime::now().to_string());
+    }
+
+    if response.headers.get(HeaderType::ContentLength).is_none() {
+        response
+            .headers
+            .add(HeaderType::ContentLength, response.body.len().to_string());
+    }
 }
 
 /// Gets the correct handler for the given request.
